@@ -63,6 +63,10 @@ func (t *Target) AccessDeniedHTTP(r *http.Request) bool {
 				xip = h
 			}
 			xip = strings.TrimSuffix(strings.TrimPrefix(xip, "["), "]")
+			// a zone-scoped element (fe80::1%eth0) is matched by its address
+			if i := strings.IndexByte(xip, '%'); i >= 0 {
+				xip = xip[:i]
+			}
 			if ip = net.ParseIP(xip); ip == nil {
 				log.Printf("[WARN] failed to parse xff address %s", xip)
 				continue
